@@ -305,7 +305,7 @@ META = dict(
 )
 
 MANIFEST = dict(
-    text="For C09: the real main_driver/non_trivial executed twice in one symbolic path with shared model-affecting options and independent formatting/naming options (self-composition): identical model-affecting stage sequences and arguments, same atoms handed to the printer, no value derived from --ffout/--pdb-output/--apbs-input reaches a model stage; real apply_name_scheme under an arbitrary (symbolic) naming scheme leaves coordinates, charges, radii and order untouched; real get_pqr_string with/without the chain flag differs in column 22 only for all field values; the number texts of the --whitespace line (tokens) equal the plain line's column fields for coordinates of ANY magnitude in (-1e5, 1e5); neutral-termini charge shifts as a table lemma on the real pipeline. Round 4: a free amino acid as its own chain in the neutral-termini table; the symbolic-residue-name --drop-water obligation of C07.",
+    text="For C09: the real main_driver/non_trivial executed twice in one symbolic path with shared model-affecting options and independent formatting/naming options (self-composition): identical model-affecting stage sequences and arguments, same atoms handed to the printer, no value derived from --ffout/--pdb-output/--apbs-input reaches a model stage; real apply_name_scheme under an arbitrary (symbolic) naming scheme leaves coordinates, charges, radii and order untouched; real get_pqr_string with/without the chain flag differs in column 22 only for all field values; the number texts of the --whitespace line (tokens) equal the plain line's column fields for coordinates of ANY magnitude in (-1e5, 1e5); neutral-termini charge shifts as a table lemma on the real pipeline. Round 4: a free amino acid as its own chain in the neutral-termini table; the symbolic-residue-name --drop-water obligation of C07. Round 5: every atom is looked up in the naming scheme under its own residue name (hetero group after the peptide); a disulfide-bonded cysteine at a chain end keeps the terminal parameter set of its position (C13 pipeline pair under PARSE).",
     note="Trusted: z3, symx, stage stubs deterministic in their arguments. 'Byte-identical across real runs' additionally needs determinism (C11, not applicable). The neutral-termini part is an exhaustive table on template structures, not symbolic.",
     technique="self-composition + symbolic execution of real code (symx) + SMT verdict per path; table lemma for neutral termini",
     design="DESIGN.md section 3 C09",
